@@ -198,10 +198,18 @@ static void do_op(int me, struct op *op)
 			/* the owner of the popped nodes pushes them back; in the RCU scheme only after a grace period */
 			if (mode == M_RCU)
 				F->synchronize_rcu();
-			for (k = 0; k < ngot && H.n + 2 <= WGL_MAXOPS - 1; k++) {
-				int j = wgl_begin(&H, WS_PUSH, 0, got[k]->id);
-				st = push_node(got[k]);
-				wgl_end(&H, j, st != 0);
+			/* pushed back in pop order or in reverse, a random subset only (the rest is reclaimed) */
+			for (k = 0; k < ngot; k++) {
+				struct snode *x = got[(op->c & 1) ? ngot - 1 - k : k];
+				if (((op->c >> (1 + k)) & 3) == 0 || H.n + 2 > WGL_MAXOPS - 1) {
+					retire(x);
+					continue;
+				}
+				{
+					int j = wgl_begin(&H, WS_PUSH, 0, x->id);
+					st = push_node(x);
+					wgl_end(&H, j, st != 0);
+				}
 			}
 			usim_probe("stack.pop_all_recycled");
 		}
@@ -251,7 +259,7 @@ static void *s_thread(void *arg)
 
 void scen_stacks(void)
 {
-	int t, i, voters = 0, total = 0, id = 0;
+	int t, i, voters = 0, total = 0, id = 0, roles;
 	char why[3000];
 
 	no_faults();
@@ -274,6 +282,12 @@ void scen_stacks(void)
 	cds_wfs_init(&ws);
 	cds_lfs_init(&ls);
 	cds_lfs_init_rcu(&rs);
+	/*
+	 * Recycling in focus (a quarter of the runs in which several threads may pop): one thread pops and is
+	 * often suspended inside its pop, another takes everything (or one node) and pushes it straight back,
+	 * the others push: the ABA family the synchronisation rules of each stack exist to exclude.
+	 */
+	roles = mode != M_SINGLE && nthreads >= 3 && usim_param("roles", rnd(4) == 0);
 	for (t = 0; t < nthreads; t++) {
 		struct script *s = &scripts[t];
 		int may_pop = mode != M_SINGLE || t == consumer;
@@ -287,6 +301,7 @@ void scen_stacks(void)
 			uint32_t r = rnd(100);
 			op->v = id++;
 			op->b = rnd(2);
+			op->c = (int) rnd(1 << 20);
 			op_stall_gen(op, 5, 8);
 			if (!may_pop) op->kind = r < 80 ? OP_PUSH : OP_EMPTY;
 			else if (r < 38) op->kind = OP_PUSH;
@@ -296,12 +311,25 @@ void scen_stacks(void)
 			else if (r < 82) op->kind = variant == V_LFSRCU ? OP_POP : OP_POP_ALL;
 			else if (r < 90) op->kind = OP_EMPTY;
 			else op->kind = (r < 95 || variant == V_LFSRCU) ? OP_POP_REPUSH : OP_POP_ALL_REPUSH;
+			if (roles && t == 0) {
+				/* suspended (long) around the decisive cmpxchg of its pop */
+				op->kind = rnd(4) ? OP_POP : OP_PUSH;
+				op->stall_ord = (unsigned char) (rnd(3) ? 2 + rnd(3) : 0);
+				op->stall_len = (unsigned short) (800 + rnd(2500));
+			} else if (roles && t == 1) {
+				/* suspended (briefly) right before it takes the node(s) */
+				op->kind = rnd(4) == 0 ? OP_PUSH : (variant == V_LFSRCU || rnd(2)) ? OP_POP_REPUSH : OP_POP_ALL_REPUSH;
+				op->stall_ord = (unsigned char) (rnd(2) ? 1 + rnd(2) : 0);
+				op->stall_len = (unsigned short) (100 + rnd(500));
+			} else if (roles) {
+				op->kind = rnd(5) ? OP_PUSH : OP_EMPTY;
+			}
 			/* pop_all in the RCU scheme hands nodes to the caller: they are not reused here */
 			usim_describe("%s\"%s\"", i ? "," : "", opname[op->kind]);
 		}
 		usim_describe("]");
 	}
-	usim_describe("]");
+	usim_describe("]%s", roles ? ",\"roles\":1" : "");
 	script_apply_skips(scripts, nthreads);
 	for (t = 0; t < nthreads; t++)
 		if (!scripts[t].skip)
